@@ -893,19 +893,26 @@ const (
 	khWildcard      // `[*]:port` pattern with the server's key
 	khMultiType     // the host has a key of another type (ecdsa) AND the server's ed25519 key
 	khOtherTypeOnly // the host is known, but only with a key of another type
+	// spelling-aware kinds: C = the host as configured (name or IP literal), O = another spelling of the same peer
+	khOtherSpellingOnly   // the server's key, but only under O
+	khBothSame            // the server's key under C and under O
+	khBothConfiguredGood  // the server's key under C, another key under O
+	khBothConfiguredBad   // another key under C, the server's key under O
+	khHashedOtherSpelling // hashed entry of O with the server's key
 	khKinds
 	// khMissing: a path is configured but no file is there when the connection is opened (histories only)
 	khMissing khKind = khKinds
 )
 
-var khNames = []string{"match", "match-hashed", "match-among-others", "mismatch", "empty", "other-port", "revoked", "malformed", "absent", "wildcard", "multi-type", "other-type-only", "missing"}
+var khNames = []string{"match", "match-hashed", "match-among-others", "mismatch", "empty", "other-port", "revoked", "malformed", "absent", "wildcard", "multi-type", "other-type-only",
+	"other-spelling-only", "both-spellings-same-key", "configured-spelling-good-other-bad", "configured-spelling-bad-other-good", "hashed-other-spelling", "missing"}
 
 // verdict by construction of the file
 func (k khKind) verdict() string {
 	switch k {
-	case khMatch, khMatchHashed, khMatchAmongOthers, khWildcard, khMultiType:
+	case khMatch, khMatchHashed, khMatchAmongOthers, khWildcard, khMultiType, khBothSame, khBothConfiguredGood:
 		return "match"
-	case khMismatch, khOtherTypeOnly:
+	case khMismatch, khOtherTypeOnly, khBothConfiguredBad:
 		return "mismatch"
 	case khRevoked:
 		return "revoked"
@@ -931,6 +938,12 @@ func (e *c14env) writeKH(kind khKind, host string, port int, hostKey ssh.PublicK
 func (e *c14env) khBytes(kind khKind, host string, port int, hostKey ssh.PublicKey) []byte {
 	addr := net.JoinHostPort(host, strconv.Itoa(port))
 	keyText := func(k ssh.PublicKey) string { return strings.Join(strings.Fields(khLine(addr, k))[1:], " ") }
+	// another spelling of the same peer: the address a name resolves to, resp. a name of the address
+	otherHost := "127.0.0.1"
+	if host == "127.0.0.1" || host == "::1" {
+		otherHost = "localhost"
+	}
+	other := net.JoinHostPort(otherHost, strconv.Itoa(port))
 	var b bytes.Buffer
 	switch kind {
 	case khMatch:
@@ -955,6 +968,16 @@ func (e *c14env) khBytes(kind khKind, host string, port int, hostKey ssh.PublicK
 		b.WriteString(khLine(addr, e.ecdsaPub) + "\n" + khLine(addr, hostKey) + "\n")
 	case khOtherTypeOnly:
 		b.WriteString(khLine(addr, e.ecdsaPub) + "\n")
+	case khOtherSpellingOnly:
+		b.WriteString(khLine(other, hostKey) + "\n")
+	case khBothSame:
+		b.WriteString(khLine(other, hostKey) + "\n" + khLine(addr, hostKey) + "\n")
+	case khBothConfiguredGood:
+		b.WriteString(khLine(other, e.otherPub) + "\n" + khLine(addr, hostKey) + "\n")
+	case khBothConfiguredBad:
+		b.WriteString(khLine(other, hostKey) + "\n" + khLine(addr, e.otherPub) + "\n")
+	case khHashedOtherSpelling:
+		b.WriteString(knownhosts.HashHostname(knownhosts.Normalize(other)) + " " + keyText(hostKey) + "\n")
 	}
 	return b.Bytes()
 }
@@ -1007,6 +1030,23 @@ func (k *stdCase) keyPass() string {
 	return ""
 }
 
+var c14Name2 = ""
+
+// c14SecondName is a second host NAME that the resolver maps to 127.0.0.1 (from /etc/hosts), or
+// "localhost" when the machine offers none.
+func c14SecondName() string {
+	if c14Name2 == "" {
+		c14Name2 = "localhost"
+		for _, n := range []string{"vm", "runsc", "ip4-loopback", "localhost4"} {
+			if a, err := net.LookupHost(n); err == nil && len(a) == 1 && a[0] == "127.0.0.1" {
+				c14Name2 = n
+				break
+			}
+		}
+	}
+	return c14Name2
+}
+
 // serverIP is where the in-process server listens for this case's host form.
 func (k *stdCase) serverIP() string {
 	if k.host == "::1" {
@@ -1029,7 +1069,7 @@ func genStd(seed uint64, cell int) *stdCase {
 	k.netconf = r.Chance(1, 6)
 	// further dimensions draw from their own stream so that the older ones keep their values per seed
 	r2 := vlib.NewRng(seed ^ 0xd1f)
-	k.host = r2.Pick([]string{"127.0.0.1", "127.0.0.1", "localhost", "::1"})
+	k.host = r2.Pick([]string{"127.0.0.1", "127.0.0.1", "localhost", "::1", "localhost", c14SecondName()})
 	k.khMode = pickInt(r2, 0, 0, 0, 0, 2, 2, 1)
 	if r2.Chance(1, 4) {
 		k.ciphers = pickList(r2, [][]string{{"aes128-ctr"}, {"aes256-gcm@openssh.com", "aes128-ctr"}, {"chacha20-poly1305@openssh.com"}})
@@ -1444,6 +1484,9 @@ func evalStd(c *ctx, e *c14env, r *stdRun, model, newErrWant, inchan string) {
 		if len(o.events) > 0 {
 			res.Fail("oracle", line, fmt.Sprintf("%scredentials %s offered to a server whose host key was not accepted (known-hosts=%s)", r.what, gotAtt, khNames[r.khNow]), "c14-std-"+r.sig+"credentials-before-host-key")
 		}
+	}
+	if k.strict && hostKeyOK && got == "hostkey" {
+		res.Fail("oracle", line, fmt.Sprintf("%sstrict checking, the known-hosts file (%s) holds the server's key under the configured host %q and port, yet Open refused the host key: %v", r.what, khNames[r.khNow], k.host, r.openErr), "c14-std-"+r.sig+"host-key-under-configured-name-refused")
 	}
 	if !k.strict && got == "hostkey" {
 		res.Fail("oracle", line, r.what+"strict checking disabled, yet Open failed on the host key: "+r.openErr.Error(), "c14-std-"+r.sig+"hostkey-checked-when-disabled")
